@@ -432,6 +432,7 @@ def step (s : DState) (line : String) : DState × String :=
     match b.toNat?, parseInt now, parseOps ops with
     | some b, some now, some ops => let (w, o) := runReq s.trace s.w b now spec ops; ({ s with w := w }, o)
     | _, _, _ => (s, "bad-op")
+  | ["drop"] => (s, if s.trace then "drop" else "ok")     -- a dropped connection is transparent: reconnect and re-send
   | ["gc", now] =>
     match parseInt now with
     | some now =>
@@ -458,6 +459,7 @@ def step (s : DState) (line : String) : DState × String :=
         | _, _, _, _ => (s, "bad-op")
       | [] => (s, "bad-op")
     | ["gc", _] => (s, "1")
+    | ["drop"] => (s, "1")
     | _ => (s, "bad-op")
   | _ => (s, "bad-op")
 
